@@ -28,6 +28,11 @@ TOL_DL = 2e-2
 
 
 # ------------------------------------------------------------------------------ independent description lengths
+def tol_dl(a, b):
+    """2e-2 plus the rounding of the '%.7e' text files the likelihood passes through"""
+    return TOL_DL + 2e-7 * max(abs(a), abs(b))
+
+
 def tree_code(labels):
     ops = [l for l in labels if not re.fullmatch(r"a\d+", l) and not re.fullmatch(r"-?\d+", l)]
     ints = [int(l) for l in labels if re.fullmatch(r"-?\d+", l)]
@@ -436,11 +441,11 @@ def main(p):
             ru = row_of_unique.get(matches[ti])
             if ru is not None:
                 npair += 1
-                if not (ru["DL"] <= dl + TOL_DL):
+                if not (ru["DL"] <= dl + tol_dl(ru["DL"], dl)):
                     nexceed += 1
                     if exceed_ex is None:
                         exceed_ex = {"tree": lab, "independent_DL": dl, "row": [ru["rank"], ru["f"], ru["DL"]]}
-            if not (top["DL"] <= dl + TOL_DL):
+            if not (top["DL"] <= dl + tol_dl(top["DL"], dl)):
                 if worst is None or dl < worst[0]:
                     worst = (dl, ti, lab, info)
         rec["independent_trees"] = nind
